@@ -127,7 +127,7 @@ namespace AIToolbox::POMDP {
 
     template <IsModel M>
     void Projecter<M>::computeImmediateRewards() {
-        immediateRewards_ = [&]{
+        immediateRewards_ = [&]() -> Matrix2D {
             if constexpr(MDP::IsModelEigen<M>)
                 return model_.getRewardFunction().transpose();
             else
